@@ -168,7 +168,20 @@ def impl_run(code, a, salt, B_b, Ms):
         return dict(status=exc_class(e), A_b=b"", M1=b"", K=b"", accepts=[])
 
 
-def impl_pair_setup(code, a, salt, B_b, M2, ref_K=None):
+# optional items a conformant accessory may add to M4: the sealed MFi response of PairSetupWithAuth (kTLVType_EncryptedData,
+# which the controller lists among the expected M4 types) and item types the controller does not know
+M4_VARIANTS = ["plain", "mfi-encrypted-data", "unknown-item", "mfi-before-proof", "mfi+unknown"]
+
+
+def m4_items(TLV, M2, variant):
+    state, proof = (TLV.kTLVType_State, TLV.M4), (TLV.kTLVType_Proof, bytearray(M2))
+    mfi = (TLV.kTLVType_EncryptedData, bytearray(b"\x5a" * 48))
+    unknown = (0xFE, bytearray(b"\x01\x02\x03"))
+    return {"plain": [state, proof], "mfi-encrypted-data": [state, proof, mfi], "unknown-item": [state, proof, unknown],
+            "mfi-before-proof": [state, mfi, proof], "mfi+unknown": [state, proof, mfi, unknown]}[variant]
+
+
+def impl_pair_setup(code, a, salt, B_b, M2, ref_K=None, variant="plain"):
     """Drive the real pair-setup generator: M3 items, outcome of feeding M4 with M2 and - when the independent accessory's
     64-byte session key ref_K is given and M4 was accepted - M5 opened by that accessory and its M6 fed back.
     -> (public key item, proof item, outcome, later) with later = None or dict(m5_ok, m5_reason, m6)."""
@@ -186,7 +199,7 @@ def impl_pair_setup(code, a, salt, B_b, M2, ref_K=None):
     pub, proof = bytes(d[TLV.kTLVType_PublicKey]), bytes(d[TLV.kTLVType_Proof])
     later, m5 = None, None
     try:
-        m5 = gen.send([(TLV.kTLVType_State, TLV.M4), (TLV.kTLVType_Proof, bytearray(M2))])
+        m5 = gen.send(m4_items(TLV, M2, variant))
         outcome = "continues"
     except AuthenticationError:
         outcome = "auth-error"
@@ -340,7 +353,8 @@ def impl_phase(case):
     Ms = [c[1] for c in cands]
     impl = impl_run(code, a, salt, B_b, Ms) if first["status"] == "ok" else first
     P = dict(case=case, code=code, scode=scode, salt=salt, a=a, b=b, acc=acc, B_b=B_b, conformant=conformant,
-             impl=impl, verdict=verdict, M2=M2, cands=cands, Ms=Ms, pair_setup=None, pair_setup_later=None, pair_setup_error=None,
+             impl=impl, verdict=verdict, M2=M2, cands=cands, Ms=Ms, pair_setup=None, pair_setup_later=None, pair_setup_variants=None,
+             pair_setup_error=None,
              want=None)
     if conformant and impl["status"] == "ok":
         P["want"] = R.client_values(code.encode(), salt, a, B_b)
@@ -352,6 +366,14 @@ def impl_phase(case):
             _p, _q, outcome_bad, _l = impl_pair_setup(code, a, salt, B_b, bytes(bad))
             P["pair_setup"] = (pub, proof, outcome, outcome_bad)
             P["pair_setup_later"] = later
+            # the verdict on the accessory's proof must not depend on optional items riding in M4
+            wrong = [("last-bit", bytes(bad)), ("first-bit", bytes([M2[0] ^ 0x80]) + M2[1:]), ("client-proof-echoed", impl["M1"]),
+                     ("all-zero", bytes(64))]
+            P["pair_setup_variants"] = []
+            for n, variant in enumerate(M4_VARIANTS[1:]):
+                P["pair_setup_variants"].append((variant, "correct", True, impl_pair_setup(code, a, salt, B_b, M2, variant=variant)[2]))
+                for label, m in (wrong if n == 0 else wrong[n % len(wrong):][:2]):
+                    P["pair_setup_variants"].append((variant, label, False, impl_pair_setup(code, a, salt, B_b, m, variant=variant)[2]))
         except Exception as e:  # noqa
             P["pair_setup_error"] = f"{type(e).__name__}: {e}"
     return P
@@ -406,6 +428,14 @@ def oracle_failures(P):
         exp_out = "continues" if impl["K"] == verdict["K"] else "auth-error"
         if outcome != exp_out or outcome_bad != "auth-error":
             out.append(("pair-setup:m4-verification", f"pair-setup M4 handling: correct proof -> {outcome}, corrupted -> {outcome_bad}", {}))
+    keys_agree = verdict is not None and impl["K"] == verdict["K"]
+    for variant, label, is_correct, got in P.get("pair_setup_variants") or []:
+        exp = "continues" if (is_correct and keys_agree) else "auth-error"
+        if got != exp:
+            out.append(("pair-setup:m4-optional-items", f"pair-setup M4 carrying optional items ({variant}): "
+                        f"{'correct' if is_correct else 'incorrect (' + label + ')'} accessory proof -> {got}, must be {exp} kind={kind}",
+                        dict(m4_variant=variant, offered_proof=label, M2=M2.hex())))
+            break
     later = P.get("pair_setup_later")
     if later is not None:
         # SrpClient's K equals the accessory's 64-byte K here; pair-setup must key M5/M6 with exactly those bytes
@@ -891,6 +921,8 @@ def run(ctx):
              "outside what C02 states (the controller), so it is recorded here and becomes a violation only with "
              "VERIF_C02_STRICT_SRPSERVER=1; fixes/C02-srpserver-zero-public-key.patch adds the RFC 5054 check")
     cov.extra["seams"] = dict(SEAM_USED)
+    pv = collections.Counter((v, "correct" if ok_ else "incorrect", got) for P in all_P for v, _l, ok_, got in (P.get("pair_setup_variants") or []))
+    cov.extra["pair_setup_m4_optional_items"] = {f"{v}/{c}->{g}": n for (v, c, g), n in sorted(pv.items())}
     for z, mr in zip(plainz, plainz_out):
         ok = bytes(mr) == z["A_b"]
         cov.case("plainz" + str(z["a"]), True, stream="plain-Z-crosscheck", plainz_agree=ok)
